@@ -279,6 +279,36 @@ def consumed {α τ : Type} (s : St α τ) : List (Event α) → List (Res α)
   | [] => []
   | e :: es => (consumedBy s e).toList ++ consumed (step s e) es
 
+/-! ### what reaches the gate from the session APIs (`session.rs:1047-1059`, `execution.rs:121-159`, `pager.rs:146-171`) -/
+
+/-- The configuration a session API hands to `RequestExecutionParams::new_for_session_apis` / `PagingExecutor::new`:
+the `StatementConfig` of the statement itself — for a BATCH that of the batch (`&batch.config`, `session.rs:1052-1053`),
+its member statements have their own configs, which are never consulted — and the two execution profiles in play. -/
+structure Submitted where
+  /-- `config.is_idempotent` of the statement / of the batch -/
+  isIdempotent : Bool
+  /-- `is_idempotent` of the member statements of a batch (`[]` for a single statement) -/
+  members : List Bool
+  /-- the profile behind the statement's / batch's execution-profile handle, if it has one: its speculative policy's
+  `max_retry_count` (`none` = that profile has no policy) -/
+  ownProfile : Option (Option Nat)
+  /-- the session's default profile, likewise -/
+  sessionDefault : Option Nat
+
+/-- `is_idempotent` of `RequestExecutionParams` (`execution.rs:128`): the statement's / batch's own flag. -/
+def Submitted.gateIdempotent (r : Submitted) : Bool := r.isIdempotent
+
+/-- The speculative policy (`execution.rs:147`, `pager.rs:148-171`, `session.rs:1047-1050`): that of the CHOSEN
+profile — the statement's handle if it has one, else the session default. -/
+def Submitted.gatePolicy (r : Submitted) : Option Nat :=
+  match r.ownProfile with
+  | some p => p
+  | none => r.sessionDefault
+
+/-- The machine a submitted request runs on. -/
+def Submitted.start {α τ : Type} (r : Submitted) (dl : Option Nat) (plan : List τ) : St α τ :=
+  init r.gateIdempotent r.gatePolicy dl plan
+
 /-! ### `load_balancing::Plan` over an arbitrary policy (`plan.rs:110-169`) -/
 
 /-- What a policy yields: a node and possibly a shard (`(NodeRef, Option<Shard>)`). -/
